@@ -546,15 +546,19 @@ def probe_times(tt, table, ctx, doc, rng, cap=24):
 # style documents: style graphs (chains, diamonds, missing and duplicate ids, rare loops), nested styles of regions, initial
 # elements, inline attributes; every value comes from a table of well-formed / malformed strings per attribute
 PROP_VALUES = {
-    (NS_TTS, "backgroundColor"): (["red", "#00ff00", "#0000ff80", "rgb(1,2,3)", "rgba(1,2,3,4)", "transparent", "Blue"], ["notacolor", "#12", "rgb(1,2)"]),
-    (NS_TTS, "color"): (["white", "#ffff00", "#ff000080", "rgb(10, 20, 30)", "lime"], ["notacolor", "#ggg"]),
+    # colours: the tolerant grammar of Spec/TtmlColorSpec.v on the left; on the right what parse_color accepted before its repair (trailing
+    # characters, components above 255, digits outside ASCII) and the other near misses
+    (NS_TTS, "backgroundColor"): (["red", "#00ff00", "#0000ff80", "rgb(1,2,3)", "rgba(1,2,3,4)", "transparent", "Blue", "rgba( 1,2 , 3 ,\t4 )", "#FFffFF", "rgb(007,0,255)"],
+                                  ["notacolor", "#12", "rgb(1,2)", "#ff0000x", "#ff0000800", "rgb(1,2,256)", "rgb(1,2,3) ", "rgba(1 ,2,3,4)", "rgb(\u0661,2,3)", " red", "rgba(1,2,3,4)x"]),
+    (NS_TTS, "color"): (["white", "#ffff00", "#ff000080", "rgb(10, 20, 30)", "lime", "rgb( 255 ,255,\n0 )", "BLAC\u212a", "#ABCDEF12"],
+                        ["notacolor", "#ggg", "#ffff00f", "rgb(300,0,0)", "rgba(0,0,0,\uff12)", "red;", "rgb(1,2,3)\n", "rgb(1,\u00a02,3)", "#ffff00 ", "rgba(1,2,3,999)"]),
     (NS_TTS, "direction"): (["ltr", "rtl"], ["up"]),
     (NS_TTS, "disparity"): (["1px", "-2%", "0.5em"], ["1", "x"]),
     (NS_TTS, "display"): (["auto", "auto", "none"], ["block"]),
     (NS_TTS, "displayAlign"): (["before", "center", "after"], ["middle"]),
     (NS_TTS, "extent"): (["50% 20%", "640px 480px", "10c 2c", "auto", "1rw 1rh"], ["50%", "a b", "1em 1em"]),
     (NS_ITTS, "fillLineGap"): (["true", "false"], ["yes", "TRUE", "1"]),
-    (NS_TTS, "fontFamily"): (["Arial", "monospaceSerif, Arial", "\"Times New Roman\"", "default", "sansSerif"], [""]),
+    (NS_TTS, "fontFamily"): (["Arial", "monospaceSerif, Arial", "\"Times New Roman\"", "default", "sansSerif", "A", "B, sansSerif"], [""]),
     (NS_TTS, "fontSize"): (["100%", "1c", "16px", "1.5em", "2rh"], ["big", "12"]),
     (NS_TTS, "fontStyle"): (["normal", "italic", "oblique"], ["slanted"]),
     (NS_TTS, "fontWeight"): (["normal", "bold"], ["heavy"]),
@@ -740,3 +744,114 @@ def style_observation(tt, doc):
         if doc.get_body() is None: return None
         walk(body, doc.get_body())
     return out if ok[0] else None
+
+
+# ---------------------------------------------------------------------------------------------------------
+# colour expressions: derivation trees of Spec/TtmlColorSpec.v (and trees just outside its grammar), their yields, and mutations of
+# the yields - trailing and leading characters, components above 255, digits and white space outside ASCII, inner white space,
+# "#" with the wrong number of digits.  Used by the colour stream of C04 and the extract stream of C05.
+TTML_NAMED_COLORS = ["transparent", "black", "silver", "gray", "white", "maroon", "red", "purple", "fuchsia", "magenta", "green", "lime",
+                     "olive", "yellow", "navy", "blue", "teal", "aqua", "cyan"]                 # TTML2 <named-color>
+ASCII_WS = [" ", "\t", "\n", "\r", "\f", "\v"]
+OTHER_WS = [" ", " ", "\x1c", "\x1f", "\x85", "　", " "]                   # \s without re.ASCII
+OTHER_DIGITS = ["١", "٢٥", "１２", "१", "1٣", "٣" "0", "²", "১২"]   # \d without re.ASCII (and a superscript)
+_WS = "[ \\t\\n\\r\\f\\v]*"
+_COLOR_HEX = re.compile(r"#[0-9a-fA-F]{6}(?:[0-9a-fA-F]{2})?\Z")
+_COLOR_RGB = re.compile(rf"rgb\({_WS}([0-9]+){_WS},{_WS}([0-9]+){_WS},{_WS}([0-9]+){_WS}\)\Z")
+_COLOR_RGBA = re.compile(rf"rgba\({_WS}([0-9]+),{_WS}([0-9]+){_WS},{_WS}([0-9]+){_WS},{_WS}([0-9]+){_WS}\)\Z")
+
+
+def _small(digits):
+    """the decimal number is at most 255 (decided on the digits, without int(): the number may have thousands of digits)"""
+    d = digits.lstrip("0")
+    return len(digits) <= 4300 and len(d) <= 3 and (d == "" or int(d) <= 255)      # 4300: the platform's limit on int(), see the spec
+
+
+def color_in_grammar(s):
+    """independent recogniser of the tolerant colour grammar of Spec/TtmlColorSpec.v (harness-side judge of mutated strings)"""
+    for n in TTML_NAMED_COLORS:
+        if len(s) == len(n) and all(c == k or c == chr(ord(k) - 32) or (k == "k" and c == "K") for c, k in zip(s, n)): return True
+    if _COLOR_HEX.match(s): return True
+    m = _COLOR_RGB.match(s) or _COLOR_RGBA.match(s)
+    return bool(m) and all(_small(g) for g in m.groups())
+
+
+class ColorGen:
+    """sample() -> (tree literal or None, string, set of categories)"""
+    def __init__(self, rng):
+        self.rng = rng
+
+    def ws(self, cats):
+        r = self.rng.random()
+        if r < 0.55: return ""
+        if r < 0.82: w = self.rng.choice(ASCII_WS)
+        elif r < 0.96: w = "".join(self.rng.choice(ASCII_WS) for _ in range(self.rng.randrange(2, 5)))
+        else:
+            cats.add("white space outside ASCII"); return self.rng.choice(OTHER_WS)
+        cats.add("inner white space"); return w
+
+    def digits(self, cats):
+        rng = self.rng; r = rng.random()
+        if r < 0.66: return str(rng.randrange(256))
+        if r < 0.72: return str(rng.choice([0, 255, 128, 1]))
+        if r < 0.81:
+            cats.add("component above 255")
+            return str(rng.choice([256, 256, 256, 257, 300, 999, 1000, 65535, 2 ** 32, 10 ** 20 + rng.randrange(1000), 256 + rng.randrange(10000)]))
+        if r < 0.86:
+            cats.add("leading zeros"); return "0" * rng.randrange(1, 5) + str(rng.randrange(300))
+        if r < 0.92:
+            cats.add("digits outside ASCII"); return rng.choice(OTHER_DIGITS)
+        if r < 0.945:
+            cats.add("empty component"); return ""
+        if r < 0.95:
+            cats.add("component of 4300 digits or more"); return rng.choice(["1", "0"]) * rng.choice([4300, 4301, 5000]) + rng.choice(["", "7"])
+        cats.add("component that is no number"); return rng.choice(["-1", "+1", "1.0", "1e1", "0x10", "1_0", "a", "1 2", "255%"])
+
+    def comp(self, cats, post=True):
+        pre = self.ws(cats); d = self.digits(cats); po = self.ws(cats) if post else ""
+        return f"(Cp {C.text(pre)} {C.text(d)} {C.text(po)})", pre + d + po
+
+    def sample(self):
+        rng = self.rng; cats = set(); r = rng.random()
+        if r < 0.2:
+            import ttconv.style_properties as s
+            n = rng.choice(list(s.NamedColors.__members__) + ["black"] * 3)
+            k = rng.random()
+            if k < 0.3: sp = n
+            elif k < 0.45: sp = n.upper(); cats.add("name in other letter case")
+            elif k < 0.6: sp = "".join(c.upper() if rng.random() < 0.5 else c for c in n); cats.add("name in other letter case")
+            elif k < 0.7: sp = n.replace("k", "K").replace("K", "K") if "k" in n else n.title(); cats.add("KELVIN SIGN" if "k" in n else "name in other letter case")
+            elif k < 0.8: sp = n.replace("i", rng.choice(["İ", "ı"])) if "i" in n else n + "̇"; cats.add("name with a letter outside ASCII")
+            else:
+                sp = rng.choice([n + "x", n[:-1], " " + n, n + " ", "grey", "orange", "", n + n, "dark" + n, n.replace("e", "3"), "ｒｅｄ"]); cats.add("no colour name")
+            tree, st = f"(CN {C.text(sp)})", sp
+        elif r < 0.5:
+            n = 8 if rng.random() < 0.4 else 6
+            ds = [rng.choice("0123456789abcdefABCDEF") for _ in range(n)]
+            if rng.random() < 0.15:
+                ds[rng.randrange(n)] = rng.choice(["g", "G", "x", " ", "１", "١", "-", "."]); cats.add("no hexadecimal digit")
+            pairs = [f"({ord(ds[i])},{ord(ds[i + 1])})" for i in range(0, n, 2)]
+            tree, st = f"({'CH6' if n == 6 else 'CH8'} {' '.join(pairs)})", "#" + "".join(ds)
+            if rng.random() < 0.2:
+                k = rng.choice([0, 1, 2, 3, 4, 5, 7, 9, 10, 12]); st = "#" + "".join(rng.choice("0123456789abcdefABCDEF") for _ in range(k)); tree = None
+                cats.add("# with other than 6 or 8 digits")
+        elif r < 0.75:
+            a, b, c = self.comp(cats), self.comp(cats), self.comp(cats)
+            tree, st = f"(CRgb {a[0]} {b[0]} {c[0]})", f"rgb({a[1]},{b[1]},{c[1]})"
+        else:
+            lead = rng.random() < 0.12
+            a, b, c, d = self.comp(cats, post=lead), self.comp(cats), self.comp(cats), self.comp(cats)
+            if lead and a[0].endswith("[])"): lead = False
+            if lead: cats.add("white space before the first comma of rgba()")
+            tree, st = f"(CRgba {a[0]} {b[0]} {c[0]} {d[0]})", f"rgba({a[1]},{b[1]},{c[1]},{d[1]})"
+        if rng.random() < 0.3:
+            tree = None; k = rng.random()
+            if k < 0.4:
+                st = st + rng.choice([" ", "x", "0", "\n", ")", ";", "ff", " 1px", " ", "\t", "00", ",", "\r\n"]); cats.add("trailing characters")
+            elif k < 0.55:
+                st = rng.choice([" ", "\n", "x", "#", "0"]) + st; cats.add("leading characters")
+            elif k < 0.8 and st:
+                j = rng.randrange(len(st)); st = st[:j] + rng.choice("0123456789 ,()#abcfx\t٣５") + st[j + (rng.random() < 0.5):]; cats.add("character inserted or replaced")
+            elif st:
+                j = rng.randrange(len(st)); st = st[:j] + st[j + 1:]; cats.add("character deleted")
+        return tree, st, cats
